@@ -6,6 +6,7 @@ import (
 	"os"
 	"path/filepath"
 
+	"golang.org/x/mod/sumdb/dirhash"
 	"golang.org/x/tools/go/packages"
 
 	"github.com/octohelm/gengo/internal/verifsym"
@@ -51,8 +52,11 @@ func Verif_C13_Imports(n int) {
 	}
 	var u *Universe
 	var err error
+	root := "/vfs/m"
+	if !verifsym.Symbolic() {
+		root = verifsym.FSRoot() + "/m"
+	}
 	if verifsym.Symbolic() {
-		root := "/vfs/m"
 		module := &packages.Module{Path: mod, Dir: root, GoVersion: "1.24"}
 		pkgs := make([]*packages.Package, n)
 		for i := range pkgs {
@@ -78,7 +82,6 @@ func Verif_C13_Imports(n int) {
 		verifsym.Provide("packages.Load", roots)
 		u, err = Load(patterns)
 	} else {
-		root := verifsym.FSRoot() + "/m"
 		verifsym.FSPut(root+"/go.mod", "module "+mod+"\n\ngo 1.24\n")
 		for i, nm := range names {
 			src := "package " + nm + "\n"
@@ -133,7 +136,9 @@ func Verif_C13_Imports(n int) {
 			}
 		}
 		verifsym.Assert(count == nimp, "Imports() lists a module package that is not imported")
-		verifsym.Assert(u.SumFile().Sum(path) != "", "no directory hash recorded for a local package")
+		want, herr := dirhash.HashDir(root+"/"+names[i], "", dirhash.Hash1)
+		verifsym.Assert(herr == nil && want != "", "harness: cannot hash the package directory")
+		verifsym.Assert(u.SumFile().Sum(path) == want, "the sum recorded for a local package is not the hash of its directory at load time")
 	}
 	prev := ""
 	nlocal := 0
